@@ -25,7 +25,8 @@ fn str_call(rng: &mut Rng, api: Api, text: String) -> Call {
 }
 
 fn random_call(rng: &mut Rng, sc: &mut Scenario, file_no: &mut usize) -> Call {
-    let src = match rng.below(10) {
+    let src = match rng.below(12) {
+        10 | 11 => gen::macro_program(rng),
         0 | 1 | 2 => gen::polluter(rng),
         3 | 4 => gen::sensitive_probe(rng),
         5 | 6 => gen::corpus_sv(rng, 1500).to_string(),
@@ -130,7 +131,7 @@ impl Property for C07 {
         ]
     }
     fn required_probes(&self) -> Vec<&'static str> {
-        vec!["residue_version", "same_address_reuse", "calls_err", "calls_ok", "half_failed_include", "rewrite_between_calls", "recursion_limit_hit"]
+        vec!["residue_version", "same_address_reuse", "same_address_same_length", "calls_err", "calls_ok", "half_failed_include", "rewrite_between_calls", "recursion_limit_hit"]
     }
 
     fn generate(&self, seed: u64, run: u64, tier: &str) -> Scenario {
@@ -155,7 +156,25 @@ impl Property for C07 {
                 continue;
             }
             calls.push(c.clone());
-            ops.push(Op::Call(c));
+            ops.push(Op::Call(c.clone()));
+            if c.text.is_some() && rng.chance(1, 4) {
+                // same address, same length, different text: the sharpest stale-key situation
+                let mut v = c.clone();
+                if v.slot.is_none() {
+                    v.slot = Some(rng.below(3) as u8);
+                    if let Some(Op::Call(prev)) = ops.last_mut() {
+                        prev.slot = v.slot;
+                    }
+                    if let Some(prev) = calls.last_mut() {
+                        prev.slot = v.slot;
+                    }
+                }
+                let t = v.text.clone().unwrap_or_default();
+                v.text = Some(gen::same_len_variant(&mut rng, &t));
+                calls.push(v.clone());
+                ops.push(Op::Call(v));
+                sc.expect = serde_json::json!({"same_len_pair": true});
+            }
         }
         // repeat an earlier call (possibly the polluted-state-sensitive probe in the slot of another)
         let mut last = rng.pick(&calls).clone();
@@ -245,6 +264,11 @@ impl Property for C07 {
                     }
                     if o.residue_before.2 > 0 {
                         rep.probe("residue_memo", 1);
+                    }
+                    if c.slot.is_some()
+                        && prev.last().map(|(a, t)| *a == c.slot && t.as_ref().map(|t| t.len()) == c.text.as_ref().map(|t| t.len()) && *t != c.text).unwrap_or(false)
+                    {
+                        rep.probe("same_address_same_length", 1);
                     }
                     if c.slot.is_some() && c.text.is_some() && prev.iter().any(|(a, t)| *a == c.slot && t.is_some() && *t != c.text) {
                         addr_reuse = true;
